@@ -83,6 +83,43 @@ def add_dying_connections(rng, exs, opts=(True, False), p=0.5):
     return exs
 
 
+NOTICE_408 = b'HTTP/1.1 408 Request Timeout\r\nContent-Length: 0\r\nConnection: close\r\n\r\n'
+
+
+def fixed_unsolicited_sequences():
+    """bytes nobody asked for arrive on the kept-alive connection between two exchanges (an idle
+    408 notice, stray bytes): they must not become the next response record.  Single-stack hosts
+    and dual-stack hosts on which the IPv6 connection won."""
+    out = []
+    for dual in (False, True):
+        for junk in (NOTICE_408, b'HTTP/1.1 200 OK\r\nContent-Length: 4\r\n\r\nEVIL', b'\r\n', b'x'):
+            exs = []
+            for k, body in enumerate((b'first', b'second', b'third')):
+                m = c08._mk(b'HTTP/1.1 200 OK\r\nContent-Length: %d\r\n\r\n' % len(body), body)
+                exs.append({'segs': [m.message], 'eof': False, 'method': 'GET', 'version': 'HTTP/1.1', 'path': '/p%d' % k, 'msg': m,
+                            'surplus': b'', 'marker': b'', 'dedup': False})
+            exs[0]['unsolicited'] = junk
+            out.append((exs, (True, False), {'dual_stack': dual}))
+    return out
+
+
+def fixed_long_trailer_sequences():
+    """a chunked response whose trailer section has a field line longer than the 64 KiB reader limit:
+    the exchange fails (no response record) - or is recorded with every byte"""
+    out = []
+    for n in (65530, 65537, 70000):
+        head = b'HTTP/1.1 200 OK\r\nTransfer-Encoding: chunked\r\n\r\n'
+        framed = b'5\r\nhello\r\n0\r\nX-Short: 1\r\nX-Long: ' + b'a' * n + b'\r\nX-After: 2\r\n\r\n'
+        m = c08._mk(head, framed, b'hello', framing='chunked', wf=False)
+        ok = c08._mk(b'HTTP/1.1 200 OK\r\nContent-Length: 5\r\n\r\n', b'after')
+        exs = [{'segs': [head, framed[:20], framed[20:]], 'eof': False, 'method': 'GET', 'version': 'HTTP/1.1', 'path': '/p0', 'msg': m,
+                'surplus': b'', 'marker': b'', 'dedup': False},
+               {'segs': [ok.message], 'eof': False, 'method': 'GET', 'version': 'HTTP/1.1', 'path': '/p1', 'msg': ok,
+                'surplus': b'', 'marker': b'', 'dedup': False}]
+        out.append((exs, (True, False)))
+    return out
+
+
 def fixed_die_sequences():
     out = []
     for n in (1, 5, 12, 17, 30, 37):
@@ -136,7 +173,8 @@ def stream_warc(ctx, seqs):
                     'exchanges': [{'segs': e['segs'], 'eof': e['eof'], 'method': e['method'], 'version': e['version'],
                                    'path': e['path'], 'msg': e['msg'].case(), 'surplus': e['surplus'],
                                    'req_body': e.get('req_body'), 'req_fields': e.get('req_fields', []),
-                                   'dedup': bool(e.get('dedup')), 'die_after': e.get('die_after')} for e in exs]}
+                                   'dedup': bool(e.get('dedup')), 'die_after': e.get('die_after'),
+                                   'unsolicited': e.get('unsolicited')} for e in exs]}
             try:
                 records = H.read_warc(path)
             except H.WarcFormatError as err:
@@ -155,7 +193,7 @@ def stream_warc(ctx, seqs):
             toks, rl = [], []
             for e, r in zip(exs, results):
                 x = r['x']
-                data = b''.join(e['segs'])
+                data = b''.join(e['segs']) + (e.get('unsolicited') or b'')     # unsolicited bytes: surplus that arrives later
                 dying = bool(e.get('die_after')) and x.outcome != 'ok'
                 if dying:
                     data = data[:e['die_after']]        # what reached the client before the connection died
@@ -951,7 +989,7 @@ def run(ctx):
             e['path'] = '/p%d' % k
             e['dedup'] = False
         app.append((exs, o, wiring))
-    stream_warc(ctx, fixed_dedup_sequences() + fixed_die_sequences() + seqs + app)
+    stream_warc(ctx, fixed_dedup_sequences() + fixed_die_sequences() + fixed_unsolicited_sequences() + fixed_long_trailer_sequences() + seqs + app)
     stream_overlap(ctx, overlap_cases(ctx.subrng('overlap'), ctx.scale(60, 1500)))
     stream_appcrawl(ctx, appcrawl_cases(ctx.subrng('appcrawl'), ctx.scale(8, 200)))
     stream_interleave(ctx, interleave_cases(ctx.subrng('interleave'), ctx.scale(60, 1500)))
